@@ -9,11 +9,6 @@ open NumSys
 
 variable {N : Type} [NumSys N]
 
-def liftE (x : Except Err α) : EvalM N α :=
-  match x with
-  | .ok a => pure a
-  | .error e => throw e
-
 /-- eval.go `evalFunctionCall` once the callee value is known. -/
 def callWithArgs (r : Rec N) (fnv : Option (Val N)) (argNodes : List (Node N))
     (data : Option (Val N)) (env : Nat) (errKind : EvalErrKind) : EvalM N (Option (Val N)) := do
